@@ -42,12 +42,27 @@ def check(run, prog, tier):
     start = prog.lookup_method(DISC, "start")
     send_sd = prog.lookup_method(PROTO, "send_sd")
     cfe = prog.lookup_method("config.Service", "create_find_entry")
-    if not all((sf, found, start, send_sd, cfe)):
+    ms = prog.lookup_method("config.Service", "matches_service")
+    if not all((sf, start, send_sd, cfe, ms)):
         raise AnalysisError("find sending functions vanished")
-    run.analysed(sf, found, start)
+    run.analysed(*[f for f in (sf, found, start) if f is not None])
     me = ("self", DISC)
     U = 3 if tier == "thorough" else 2
-    eng = engine(prog, InlineOnly(names=(), props=False, max_depth=0, unroll=U))
+    # the test "already found" is read where it is applied - in the filter of the list that is sent - with the method it
+    # may be written in analysed in place; the list stays one term (not enumerated element by element)
+    eng = engine(prog, InlineOnly(names=((found.qual,) if found is not None else ()), props=False, max_depth=2, unroll=U))
+    eng.policy.comp_symbolic = True
+
+    def found_test(cnd, el):
+        """cnd is `any(<el matches s / s matches el> for s in self.found_services.<live entries>)`"""
+        if not (cnd[0] == "call" and cnd[1] == ("ext", "any") and len(cnd[2]) == 1 and cnd[2][0][0] == "comp" and len(cnd[2][0][3]) == 1):
+            return False
+        inner = cnd[2][0]
+        s_el, s_it, s_conds = inner[3][0]
+        return not s_conds and s_it[0] == "call" and s_it[1][0] == "bound" and s_it[1][1] == ("attr", me, "found_services") and not s_it[2] \
+            and inner[2][0] == "call" and inner[2][1][0] == "bound" and inner[2][1][2] == ms.qual and len(inner[2][2]) == 1 \
+            and {inner[2][1][1], inner[2][2][0]} == {el, s_el}
+    found_ok = None
     paths = eng.paths(sf, recv=DISC)
     run.paths += len(paths)
     leaf = timing_leaf(me)
@@ -64,19 +79,19 @@ def check(run, prog, tier):
         n_sends = 0
         sleeps = []
         ended = False
-        for e in p.events:
+        for here, e in enumerate(p.events):
             if e.kind == "await":
                 a = sleep_arg(e)
                 if a is None:
                     probs.setdefault("N2:unexpected-await", f"awaits {show(e.value)[:60]}")
                     continue
-                last_await = e.seq
+                last_await = here
                 sleeps.append(a)
                 if pending_sleep is not None:
                     probs.setdefault("N2:one-round-per-wait", "two waits without a round in between")
                 pending_sleep = e
-            elif e.kind == "call" and any(f.qual == found.qual for f in e.targets) and e.in_comp:
-                last_build = e.seq
+            elif e.kind == "call" and e.recv == ("attr", me, "found_services") and e.in_comp:
+                last_build = here  # the live entries are read here
             elif e.kind == "call" and any(f.qual == send_sd.qual for f in e.targets):
                 n_sends += 1
                 sends_seen += 1
@@ -98,9 +113,11 @@ def check(run, prog, tier):
                     okl = base == ("attr", me, "watched_services")
                     why = f"the list ranges over {show(it)[:60]}"
                     if okl:
-                        okl = len(conds) == 1 and conds[0][0] == "unop" and conds[0][1] == "not" and conds[0][2][0] == "call" \
-                            and conds[0][2][1] == ("bound", me, found.qual) and conds[0][2][2] == (el,)
+                        okl = len(conds) == 1 and conds[0][0] == "unop" and conds[0][1] == "not"
                         why = f"the filter is {[show(c)[:60] for c in conds]}"
+                        if okl:
+                            ft = found_test(conds[0][2], el)
+                            found_ok = ft if found_ok is None else (found_ok and ft)
                     if okl:
                         elt = lst[2]
                         okl = elt[0] == "call" and elt[1] == ("bound", el, cfe.qual) and \
@@ -197,19 +214,10 @@ def check(run, prog, tier):
 
     # ------------------------------------------------------------------ N4
     e0 = engine(prog, NoInline())
-    sp = e0.paths(found, recv=DISC)
-    run.paths += len(sp)
-    ms = prog.lookup_method("config.Service", "matches_service")
-    okf = False
-    for p in sp:
-        if p.returns():
-            rv = p.retval()
-            svc = P(found, param_at(found, 0, "service"))
-            okf = rv[0] == "call" and rv[1] == ("ext", "any") and rv[2] and rv[2][0][0] == "comp" and len(rv[2][0][3]) == 1 \
-                and rv[2][0][3][0][1][0] == "call" and rv[2][0][3][0][1][1][0] == "bound" and rv[2][0][3][0][1][1][1] == ("attr", me, "found_services") \
-                and rv[2][0][2][0] == "call" and rv[2][0][2][1][0] == "bound" and rv[2][0][2][1][2] == ms.qual \
-                and {rv[2][0][2][1][1], rv[2][0][2][2][0]} == {svc, rv[2][0][3][0][0]}
-    run.ob("N4", f"{found.qual}:found-means-live-matching-entry", okf, loc(found), "a watched service counts as found iff some live entry of found_services matches it (matches_service)")
+    anchor = found if found is not None else sf
+    run.ob("N4", f"{anchor.qual}:found-means-live-matching-entry", bool(found_ok), loc(anchor),
+           "a watched service counts as found iff some live entry of found_services matches it (matches_service)" if found_ok else
+           "the filter of the FindService list is not `not any(service matches s for s in the live entries of found_services)`")
     tp = e0.paths(start, recv=DISC)
     run.paths += len(tp)
     okst = False
